@@ -1,6 +1,7 @@
 package props
 
 import (
+	"os"
 	"fmt"
 	"go/token"
 	"sort"
@@ -331,5 +332,123 @@ func c19More(p *load.Prog, r *oblig.Run) {
 		o.Fail(bad + ": with the places group switched off every page still links its places to <place>.html, and those pages are not generated")
 	default:
 		o.OK(fmt.Sprintf("%d call site(s), all under the ShowPlaces test", sites))
+	}
+}
+
+// c19Truncate (R19.o): a published file holds exactly the bytes of its page. Every place in package html/core and
+// html that opens a file for writing creates it empty: os.Create, or os.OpenFile whose constant flags contain
+// O_CREATE and O_TRUNC (and not O_APPEND). Otherwise a page that is shorter than the file a previous publish left
+// under the same name keeps that file's tail - the output depends on what was in the directory before.
+func c19Truncate(p *load.Prog, r *oblig.Run) {
+	r.Rule("R19.o", "every file the publisher opens for writing is created empty (os.Create, or O_CREATE|O_TRUNC without O_APPEND)", 1)
+	n := 0
+	for _, fn := range p.Repo {
+		pk := pkgPathOf(fn)
+		if pk != load.PkgHTML && pk != load.PkgCore {
+			continue
+		}
+		for _, c := range su.Calls(fn) {
+			cc := c.Common()
+			switch {
+			case su.CalleeIs(cc, "os", "Create"):
+				n++
+				r.Add("R19.o", "file opened in "+load.FuncName(fn), p.Pos(c.Pos()), "os.Create").OK("os.Create truncates")
+			case su.CalleeIs(cc, "os", "OpenFile"):
+				flags, isK := su.ConstInt(cc.Args[1])
+				if isK && flags&int64(os.O_WRONLY|os.O_RDWR) == 0 {
+					continue // read only
+				}
+				n++
+				o := r.Add("R19.o", "file opened in "+load.FuncName(fn), p.Pos(c.Pos()), "os.OpenFile for writing")
+				switch {
+				case !isK:
+					o.Unknown("the flags of os.OpenFile are not constant")
+				case flags&int64(os.O_TRUNC) == 0 || flags&int64(os.O_APPEND) != 0:
+					o.Fail("the file is opened for writing without O_TRUNC (or with O_APPEND): a page shorter than the file an earlier publish left under the same name keeps the old file's tail after </html>, and no error is reported - the published bytes depend on the previous content of the directory")
+				case flags&int64(os.O_CREATE) == 0:
+					o.Fail("the file is opened for writing without O_CREATE: a page that does not exist yet cannot be published")
+				default:
+					o.OK("O_CREATE|O_TRUNC")
+				}
+			}
+		}
+	}
+	if n == 0 {
+		r.Add("R19.o", "files opened for writing", "-", "anchor").Unknown("package html/core opens no file for writing (os.Create / os.OpenFile)")
+	}
+}
+
+// c19FreshMaps (R19.p): a map kept in a field of the publisher is handed to the pages the producer creates and read
+// by the workers that render them. It is filled only in the call that allocated it (the store of a fresh map into
+// the field dominates every update through the field), so a page holds either no map yet or a map that is complete
+// before the page is sent to a worker. A map allocated at construction and filled later is written by the producer
+// while workers read it through the pages created earlier: the content of those pages depends on the schedule.
+func c19FreshMaps(p *load.Prog, r *oblig.Run) {
+	r.Rule("R19.p", "a map field of the publisher is filled only in the call that allocated it (pages never hold a map that is still being filled)", 1)
+	n := 0
+	for _, fn := range p.Repo {
+		if pkgPathOf(fn) != load.PkgHTML {
+			continue
+		}
+		type site struct {
+			upd   *ssa.MapUpdate
+			field string
+		}
+		var sites []site
+		fresh := map[string][]ssa.Instruction{}
+		for _, b := range fn.Blocks {
+			for _, ins := range b.Instrs {
+				switch x := ins.(type) {
+				case *ssa.MapUpdate:
+					if ld, ok := x.Map.(*ssa.UnOp); ok && ld.Op == token.MUL {
+						if fa, ok := ld.X.(*ssa.FieldAddr); ok {
+							if ow := su.FieldOwner(fa); ow != nil && ow.Obj().Name() == "Publisher" {
+								sites = append(sites, site{x, su.FieldName(fa)})
+							}
+						}
+					}
+				case *ssa.Store:
+					if fa, ok := x.Addr.(*ssa.FieldAddr); ok {
+						if ow := su.FieldOwner(fa); ow != nil && ow.Obj().Name() == "Publisher" {
+							if _, isMake := x.Val.(*ssa.MakeMap); isMake {
+								fresh[su.FieldName(fa)] = append(fresh[su.FieldName(fa)], x)
+							}
+						}
+					}
+				}
+			}
+		}
+		byField := map[string]bool{}
+		for _, s := range sites {
+			if byField[s.field] {
+				continue
+			}
+			byField[s.field] = true
+			n++
+			o := r.Add("R19.p", "updates of Publisher."+s.field+" in "+load.FuncName(fn), p.Pos(s.upd.Pos()), "the map is fresh in this call")
+			bad := ""
+			for _, s2 := range sites {
+				if s2.field != s.field {
+					continue
+				}
+				dom := false
+				for _, st := range fresh[s.field] {
+					if su.Dominates(st, s2.upd) {
+						dom = true
+					}
+				}
+				if !dom {
+					bad = p.Pos(s2.upd.Pos())
+				}
+			}
+			if bad != "" {
+				o.Fail("the update at " + bad + " writes into the map already kept in Publisher." + s.field + " (no allocation of a fresh map into the field dominates it): pages created before this call hold that same map and are rendered by workers while it is being filled - their content depends on the schedule and the number of jobs, and the unsynchronised map access can crash the process")
+			} else {
+				o.OK("every update follows the allocation of a fresh map into the field in the same call")
+			}
+		}
+	}
+	if n == 0 {
+		r.Add("R19.p", "map fields of the publisher", "-", "anchor").Unknown("no update of a map field of html.Publisher found")
 	}
 }
